@@ -82,8 +82,14 @@ Definition rsn_new (bv : bitvec) : outcome rsnarrow :=
   Val {| rsn_bv := bv; rsn_pairs := rev pairs;
          rsn_samples0 := rev (last :: ns_s0 st); rsn_samples1 := rev (last :: ns_s1 st) |}.
 
-Definition rsn_block_rank (r : rsnarrow) (block : N) : outcome N := idx (rsn_pairs r) (block * 2).
-Definition rsn_sub_block_ranks (r : rsnarrow) (block : N) : outcome N := idx (rsn_pairs r) (block * 2 + 1).
+(* block_rank / sub_block_ranks / sub_block_rank with the usize overflow checks of the source
+   (`block * 2`, `block * 2 + 1`, `result += ..`): equal to the definitions regenerated from
+   src/bitvector/rs_narrow.rs (Proofs/LeavesRSNOk.v) *)
+Definition rsn_block_rank (r : rsnarrow) (block : N) : outcome N :=
+  let! k := omul 64 block 2 in idx (rsn_pairs r) k.
+Definition rsn_sub_block_ranks (r : rsnarrow) (block : N) : outcome N :=
+  let! k := omul 64 block 2 in
+  let! k := oadd 64 k 1 in idx (rsn_pairs r) k.
 Definition rsn_sub_block_rank (r : rsnarrow) (sub_block : N) : outcome N :=
   let block := sub_block / RSN_BLOCK_SIZE in
   let! br := rsn_block_rank r block in
@@ -91,7 +97,7 @@ Definition rsn_sub_block_rank (r : rsnarrow) (sub_block : N) : outcome N :=
   let! sr := rsn_sub_block_ranks r block in
   let! d := osub 7 left in
   let! sh := oshr 64 sr (d * RSN_SBR_BITS) in
-  Val (br + N.land sh RSN_SBR_MASK).
+  oadd 64 br (N.land sh RSN_SBR_MASK).
 
 Definition rsn_rank1_unchecked (r : rsnarrow) (i : N) : outcome N :=
   if i =? 0 then Val 0
